@@ -2,6 +2,7 @@
 
 use super::algorithms;
 use super::methods::{CompressionMethod, flags};
+use crate::security::{SecurityLimits, SessionTracker, validate_decompression_operation};
 use crate::{Error, Result};
 
 /// Compress data using the specified compression method
@@ -19,9 +20,22 @@ pub fn compress(data: &[u8], method: u8) -> Result<Vec<u8>> {
     // Check if compression actually reduces size
     let compressed = compress_internal(data, method)?;
 
+    // A stream that `decompress()` would refuse under its default limits (compression
+    // bomb detection works on the ratio of the two sizes) must not be emitted: the data
+    // is stored as it is instead, exactly as when compression does not save space.
+    let accepted_by_decoder = validate_decompression_operation(
+        compressed.len() as u64,
+        data.len() as u64,
+        method,
+        None,
+        &SessionTracker::new(),
+        &SecurityLimits::default(),
+    )
+    .is_ok();
+
     // MPQ format requires that compression saves space
     // Account for the method byte prefix when comparing sizes
-    if 1 + compressed.len() >= data.len() {
+    if 1 + compressed.len() >= data.len() || !accepted_by_decoder {
         // Return uncompressed data (no compression byte prefix)
         Ok(data.to_vec())
     } else {
